@@ -69,7 +69,7 @@ pub fn build(_ctl: &'static Ctrl, params: &Value) -> Instance {
             }
         }));
     }
-    let opts = ExecOpts { cats: vec!["mutex", "sb"], victims: victims.clone(), ..Default::default() };
+    let opts = ExecOpts { cats: vec!["mutex"], victims: victims.clone(), ..Default::default() };
     let sh3 = sh.clone();
     let nvict = victims.len();
     Instance {
